@@ -145,6 +145,54 @@ def r_leg_link(ck: Checker) -> None:
     leaves = decision_tree([st for st in strip_docstring(rc.node.body) if not (isinstance(st, ast.If) and "_reset_content_id" in norm(st))], max_atoms=6)
     bad = []
     k_idx, k_new = k_none("index"), k_none("new")
+    osq_txt = "getattr(self, field.name)"
+    seg_env: dict[str, list[str]] = {}  # locals holding pieces of the original sequence (bound before the field is overwritten)
+
+    def segments(e: ast.expr, new_none: bool) -> list[str]:
+        """The rebuilt sequence as a list of pieces: PRE = elements before index, NEW, POST = elements after index."""
+        if isinstance(e, ast.Call) and len(e.args) == 1 and not e.keywords and (norm(e.func).startswith("type(") or isinstance(e.func, ast.Name)) \
+                and not (isinstance(e.func, ast.Name) and e.func.id in ("getattr",)):
+            return segments(e.args[0], new_none)
+        if isinstance(e, ast.Name) and e.id in seg_env:
+            return list(seg_env[e.id])
+        if isinstance(e, ast.Starred):
+            return segments(e.value, new_none)
+        if isinstance(e, (ast.List, ast.Tuple)):
+            out: list[str] = []
+            for x in e.elts:
+                if isinstance(x, ast.Starred):
+                    out += segments(x.value, new_none)
+                elif norm(x) == "new":
+                    out.append("NEW")
+                else:
+                    out.append("?" + norm(x)[:20])
+            return out
+        if isinstance(e, (ast.ListComp, ast.GeneratorExp)) and len(e.generators) == 1 and norm(e.generators[0].iter) in (osq, osq_txt) \
+                and isinstance(e.generators[0].target, ast.Name) and norm(e.elt) == e.generators[0].target.id and len(e.generators[0].ifs) == 1:
+            t_ = e.generators[0].ifs[0]
+            v_ = e.generators[0].target.id
+            if isinstance(t_, ast.Compare) and len(t_.ops) == 1 and {norm(t_.left), norm(t_.comparators[0])} == {v_, "old"}:
+                if isinstance(t_.ops[0], ast.IsNot):
+                    return ["PRE", "POST"]  # exactly the old object is left out
+                if isinstance(t_.ops[0], ast.NotEq):
+                    return ["!every element equal to the old child is dropped (twins compare equal)"]
+        if isinstance(e, ast.BinOp) and isinstance(e.op, ast.Add):
+            return segments(e.left, new_none) + segments(e.right, new_none)
+        if isinstance(e, ast.IfExp):
+            from ..finite import Evaluator
+            try:
+                return segments(e.body if Evaluator({k_new: new_none}).ev(e.test) else e.orelse, new_none)
+            except Exception:
+                return ["?cond"]
+        if isinstance(e, ast.Subscript) and isinstance(e.slice, ast.Slice) and norm(e.value) in (osq, osq_txt) and e.slice.step is None:
+            lo = norm(e.slice.lower) if e.slice.lower is not None else None
+            hi = norm(e.slice.upper) if e.slice.upper is not None else None
+            if lo is None and hi == "index":
+                return ["PRE"]
+            if lo in ("index + 1", "1 + index") and hi is None:
+                return ["POST"]
+        return ["?" + norm(e)[:20]]
+
     for lf in leaves:
         a = lf.assign
         st = [norm(s) for s in lf.stmts]
@@ -154,21 +202,37 @@ def r_leg_link(ck: Checker) -> None:
             bad.append(f"{a}: the new child's parent triple is not set to (self, field, index)")
         if removed and any("new._set_parent" in s for s in st):
             bad.append("None child gets a parent")
+        seg_env.clear()
+        for s_ in lf.stmts:
+            if isinstance(s_, ast.Assign) and len(s_.targets) == 1 and isinstance(s_.targets[0], ast.Name) and s_.targets[0].id != osq:
+                sg = segments(s_.value, removed)
+                if not any(x.startswith("?") for x in sg):
+                    seg_env[s_.targets[0].id] = sg
+        stores = [c for s_ in lf.stmts for c in ast.walk(s_) if isinstance(c, ast.Call) and dotted(c.func) == "setattr" and len(c.args) == 3
+                  and norm(c.args[0]) == "self" and norm(c.args[1]) == "field.name"]
+        if in_seq and a.get(k_new) is not None:
+            if len(stores) != 1:
+                raise Unsupported(f"_replace_child: {len(stores)} stores of the rebuilt sequence on path {a}", rc.node)
+            seg = segments(stores[0].args[2], removed)
+            if any(x.startswith("!") for x in seg):
+                bad.append("removed element is not cut out of the sequence: " + next(x for x in seg if x.startswith("!"))[1:])
+                continue
+            if any(x.startswith("?") for x in seg):
+                raise Unsupported(f"_replace_child: rebuilt sequence {norm(stores[0].args[2])[:70]} not understood ({seg})", rc.node)
+            if removed and seg != ["PRE", "POST"]:
+                bad.append(f"removed element is not cut out of the sequence ({seg})")
+            if not removed and seg != ["PRE", "NEW", "POST"]:
+                bad.append(f"replacement is not stored at the same index of the sequence ({seg})")
         if in_seq and removed:
             shift = [s for s in lf.stmts if isinstance(s, ast.For)]
             from ..normalize import resolve_path
             ok = False
-            if len(shift) == 1 and norm(shift[0].iter) == f"{osq}[index + 1:]" and isinstance(shift[0].target, ast.Name):
+            if len(shift) == 1 and segments(shift[0].iter, True) == ["POST"] and isinstance(shift[0].target, ast.Name):
                 sib = shift[0].target.id
                 sbody = [norm(x) for x in resolve_path(shift[0].body)]
                 ok = f"{sib}._set_parent(self, field, {sib}.parent_index - 1)" in sbody
             if not ok:
                 bad.append("removing a sequence element does not shift the later siblings' indices by -1")
-            if not any(f"[*{osq}[:index], *{osq}[index + 1:]]" in s for s in st):
-                bad.append("removed element is not cut out of the sequence")
-        if in_seq and a.get(k_new) is False:
-            if not any(f"[*{osq}[:index], new, *{osq}[index + 1:]]" in s for s in st):
-                bad.append("replacement is not stored at the same index of the sequence")
         if a.get(k_idx) is True and "setattr(self, field.name, new)" not in st:
             bad.append("single child field is not set to the new child")
     what = "_replace_child keeps (field, index) links exact: new child linked at the same position, later siblings shifted by -1 on removal"
